@@ -1,5 +1,160 @@
 # rows for gen_manifest.py: row(id, built, engine, technique, level text, level note)
+EI = "bounded exhaustive input enumeration (explicit-state exploration of every input up to a size bound, real code run on each)"
+
+row("C01", True, "E-INPUT",
+    EI + "; oracle: no panic / abort / timeout, in watchdog-supervised child processes with a 2 MiB stack",
+    "Every string over the lexical alphabet up to a length bound, every token sequence up to a length bound, a parametric deep-nesting family and a grid of token/recursion limits is run through every parser entry point (Lexer, Parser::parse / parse_selection_set / parse_type, and the compiler's Document / Schema / ExecutableDocument / Type / FieldSet parse functions). Each execution happens under catch_unwind in a child process with a bounded stack and a wall-clock watchdog; any panic, abort, stack overflow or hang is a violation.",
+    "Trusted: the watchdog and 2 MiB stack bound as the definition of 'overflow'/'hang'; recursion limits above the default are only combined with nesting <= 500. Inputs outside the alphabets / lengths are not covered.")
+
+row("C02", True, "E-INPUT",
+    EI + "; oracle: syntax-tree text == input, tokens tile the input on char boundaries",
+    "Every string over the lexical alphabet up to a length bound, every token sequence up to a length bound, and every 1-token (thorough: 2-token) edit of 58 documents that together use every grammar production is parsed by the real parser; the concatenated token text of the tree must equal the input byte for byte, ranges must tile it, and every error index must be a char boundary inside it.",
+    "Trusted: rowan's to_string/text_range. Token limit off, recursion limit default. One open known finding (token after `[` in a type dropped) is predicted exactly by a classifier; any other loss is a violation.")
+
 row("C03", True, "E-INPUT",
     "bounded exhaustive input enumeration vs reference lexer (model checking of the real lexer over all strings up to a length bound)",
     "Every string over five small character alphabets (general, numeric, quoted-string bodies, block-string bodies, punctuators) up to a length bound is lexed by the real Lexer; tiling, maximal munch at every token offset, accept/reject and token sequence are compared with an independent reference lexer. Exhaustive within the bound, so any lexer state-machine slip reachable with a short input is found.",
     "Trusted: refmodel::lex as a transcription of spec §2.1 (unit-tested on the spec examples); error re-synchronisation policy is not compared; inputs outside the alphabets/lengths are not covered.")
+
+row("C04", True, "E-INPUT",
+    EI + " x every limit value; oracle: reference item count and reference nesting depth",
+    "For every string over the lexical alphabet up to a length bound: every token limit 0..K+1 (K = items of the unlimited stream) — error iff limit < K, the tokens before the limit equal the unlimited prefix, nothing is reported after the limit error. For a family of nested documents (selection sets, list/object values, list types, mixed): every recursion limit 0..depth+2 through the parser and the three compiler entry points — error iff reference depth > limit, high-water mark == min(depth, limit+1).",
+    "Trusted: the definition of a nesting level (DESIGN A.7) and refmodel::nest; K is cross-checked against the reference lexer on lexically valid inputs.")
+
+row("C05", True, "E-INPUT",
+    EI + "; oracle: reference recogniser for the appendix-B document grammar",
+    "Every token sequence over a 42-symbol token alphabet up to a length bound, every sequence within k single-token edits of grammatical base documents (together using every production) and of boundary documents one step outside the grammar, each also with an ignored token inserted at each gap, is parsed by the real parser. Acceptance (no errors) and the (kind, name) list of top-level definitions are compared with an independent recogniser.",
+    "Trusted: refmodel::recognise as a transcription of the October 2021 grammar (unit-tested on spec examples and both sides of each boundary). Seven open known findings are modelled by deviation switches in the recogniser; only inputs whose disagreement the switch reproduces exactly are attributed to them.")
+
+row("C06", True, "E-INPUT",
+    EI + "; oracle: reference StringValue / BlockStringValue semantics",
+    "Every quoted-string body and every block-string body over escape/indentation/line-terminator alphabets up to a length bound that the reference lexer accepts as one StringValue is decoded by the real code at four sites (CST String→String conversion, ast value, description, directive argument); the result must equal the spec's StringValue / BlockStringValue() result and must never panic.",
+    "Trusted: refmodel::strings (spec §2.9.4, nine BlockStringValue steps; unit-tested on the spec example). Surrogate escapes are lexical errors and not evaluated.")
+
+row("C07", True, "E-INPUT",
+    EI + "; oracle: reference 'input is exactly one Type / one selection set'",
+    "Every (core construct, prefix token sequence, suffix token sequence) over a token alphabet with the stated length shapes is given to Parser::parse_type / ast::Type::parse and Parser::parse_selection_set / FieldSet::parse. Whenever the reference says the input is not exactly one construct, the real entry point must report at least one error.",
+    "One-directional as the statement is; panics are C01's subject. FieldSet::parse runs against a fixture schema where every name resolves so only syntax can fail. One open known finding (argument without value) is modelled by a switch.")
+
+row("C08", True, "E-INPUT",
+    EI + " x 18 serializer configurations; oracle: parse(serialize(d)) == d and equals the generated mini-AST",
+    "Every derivation of a generative grammar of GraphQL documents up to a size bound (all definition kinds, all value kinds, directives, descriptions, variable definitions, nested selections) plus every sequence of 1..3 menu definitions is printed, parsed by ast::Document::parse and re-serialized under 18 serializer configurations (indentation on/off, prefixes, initial levels, Display, to_string of parts); the re-parsed AST must equal the original and the harness's own mini-AST projection.",
+    "Strings limited to two representatives (escaping is C09); lists have 1..2 elements; documents 1..3 definitions.")
+
+row("C09", True, "E-INPUT",
+    EI + " x 10 string sites x 5 configurations; oracle: value identity through serialize→parse",
+    "Every string over an alphabet of quotes, backslash, controls, DEL, U+2028, newlines, spaces and letters up to a length bound is placed at 10 sites (string value, 8 description sites, deprecation reason) of programmatically built schemas/documents, serialized under 5 configurations and re-parsed; the recovered value must be identical.",
+    "Decoding on the way back is apollo's own (its spec agreement is C06). A boundary family covers the 70-character block-string threshold.")
+
+row("C10", True, "E-INPUT",
+    EI + "; oracle: hand matchers for Name / IntValue / FloatValue / Type and conversion round trips",
+    "Every string over name and numeric alphabets up to a length bound against Name::new / is_valid_syntax / serde and IntValue / FloatValue constructors and serde; an i32 and f64 lattice (thorough: every i32) through From, Display, try_to_i32 / try_to_f64 and a document parse; every type reference up to a nesting bound through Display, parse, serde, inner_named_type, item_type and the nullability wrappers.",
+    "Trusted: Rust f64 Display/FromStr and serde_json. The *_unchecked constructors are outside the statement.")
+
+row("C11", True, "E-INPUT",
+    EI + " (separator / payload assignments with bounded deviations); oracle: reference line/column and name-span model",
+    "For each base document and each undefined-name variant, every assignment of separators (spaces, tabs, BOM, commas, comments, every line-terminator form, VT/FF/NEL/LS/PS, multi-byte and astral characters) to token gaps and of texts to string tokens with at most k non-default choice points is parsed as Schema / ExecutableDocument. Every Name's span must cover exactly its text, every node's span must start at its first token, line_column / line_column_range at every char-boundary offset must equal the reference (LineTerminator = LF, CRLF, CR; column = 1 + scalar values), and diagnostics' JSON positions must agree.",
+    "Names synthesised by apollo (implicit schema definition) are skipped. Commas at four look-ahead positions that the parser does not skip are kept out (C05's findings).")
+
+row("C12", True, "E-HIST",
+    "explicit-state breadth-first search over definition/extension histories replayed on fresh real SchemaBuilders, canonical-state dedup; oracle: serialize→parse identity including order",
+    "Every sequence of up to max_depth items of a 26-item menu of type-system definitions and extensions (all six kinds, schema definition/extension, directives) is built into a Schema by the real builder; the schema is serialized, re-parsed and must be equal including the order of fields, values, members, interfaces, directives and extensions; every ExtendedType component must report the origin that contributed it.",
+    "One open known finding (components of several extensions re-serialize in a different order) is predicted exactly by a re-ordering classifier; any other inequality is a violation.")
+
+row("C13", True, "E-HIST",
+    "explicit-state enumeration of histories x every split into sources x every relocation of a definition among its extensions, each replayed on a fresh real builder; differential oracle",
+    "Every sequence of up to max_depth menu items (schema part) and executable items is built (a) as one source, (b) under every contiguous split into several sources added in order, (c) with each definition relocated among its own extensions. Resulting schema / executable document and the multiset of diagnostic messages must agree.",
+    "Diagnostics compared by message (locations legitimately differ). Relocations never jump over another definition. adopt_orphan_extensions / ignore_builtin_redefinitions modes not explored.")
+
+row("C14", True, "E-INPUT",
+    EI + " (mutation operators x sites over base schemas, tiny-scope schemas); oracle: reference type-system validator",
+    "Every schema obtained from 10+ base schemas by each of 45 mutation operators at each site (thorough: pairs of mutations) and every schema of a tiny scope is validated by Schema::parse_and_validate; the verdict (valid / invalid) must equal that of an independent transcription of the spec §3 rules, and every reference rule must fire somewhere in the space.",
+    "Trusted: refmodel::typesys (graphql-js is not installed). Three documented apollo choices are oracle parameters. One open known finding (duplicate input-object field in a const value) is modelled by a switch.")
+
+row("C15", True, "E-INPUT",
+    EI + " (C14's schema space); oracle: direct invariants on every accepted schema",
+    "Every schema of C14's space that Schema::parse_and_validate accepts is checked against each invariant of the statement on the public fields of Valid<Schema>: every referenced type exists and has the right input/output kind, interface fields are present with covariant types and compatible arguments, union members are objects, root types are distinct objects, no type/field/argument/value name is duplicated or reserved, built-in scalars present iff referenced.",
+    "Rides on C14's alphabet; IsValidImplementationFieldType is refmodel::compat.")
+
+row("C16", True, "E-HIST",
+    "explicit-state breadth-first search over validate / into_inner / mutate histories on real Schema and ExecutableDocument objects with canonical-state dedup; oracle: idempotence + reference built-in scalar set",
+    "From each base schema, every history of up to max_depth operations (validate, unwrap, add/remove a field that references a built-in scalar, clone) is executed on real objects; in every distinct state re-validation must leave the serialized schema, type order and diagnostics unchanged, and the set of built-in scalars present must equal the set referenced. 45 valid (schema, document) pairs are re-validated after unwrap with the same demand.",
+    "The position at which a re-added scalar lands is C22's subject.")
+
+row("C17", True, "E-INPUT",
+    EI + " (mutation operators x sites over base (schema, document) pairs, tiny-scope operations); oracle: reference executable validator",
+    "Every document obtained from base (schema, document) pairs by each of 60 mutation operators at each site and variant (thorough: pairs of mutations) and every operation of a tiny scope is validated by ExecutableDocument::parse_and_validate; the verdict must equal that of an independent transcription of the spec §5 rules.",
+    "Trusted: refmodel::execval (135-row calibration table, spec examples). Open known findings are deviation switches; a failing case is attributed only if apollo's verdict equals the model's with exactly those switches on.")
+
+row("C18", True, "E-INPUT",
+    EI + " (C17's pair space); oracle: typing walk against a reference schema view + reference traversal for all_fields/root_fields",
+    "For every pair of C17's space, valid or not: every selection set's type, every field's definition, every fragment's type condition and every operation's root type in the built ExecutableDocument must exist in (and equal) the schema's; all_fields()/root_fields() must equal a reference traversal; a validated document must contain no undefined variable/fragment.",
+    "For invalid documents only what apollo kept is checked.")
+
+row("C19", True, "E-INPUT",
+    EI + " (C17's pair space + field sets x 3 configurations); oracle: round-trip identity",
+    "Every valid pair of C17's space: serialize → parse → equal ExecutableDocument, also via to_ast → Document → to_executable; same for every FieldSet; under three serializer configurations.",
+    "Equality is apollo's PartialEq (sources ignored).")
+
+row("C20", True, "E-INPUT",
+    EI + " (C17's pair space); oracle: standalone validation must accept whatever validates against a schema, and may only report schema-independent problems",
+    "For every pair of C17's space: (a) if the document validates against its schema, ast::Document::validate_standalone_executable must accept it; (b) each diagnostic of a failing standalone validation must map to a problem that is an error under every schema and that the document has.",
+    "One open known finding (built-in directives undefined without schema) is a switch.")
+
+row("C21", True, "E-INPUT",
+    EI + " (parametric adversarial families around every internal limit, single-token edits), child processes; oracle: no panic, limit diagnostics present, diagnostics sorted",
+    "Eleven parametric families (nested selections, fragment chains and cycles, directive chains, input-object cycles, interface chains, deep values/types, wide documents, huge names…) at every size around each internal limit (32/100/128/500) plus every single-token edit of seed documents are run through parse → build → validate → serialize → introspect → execute pipelines under catch_unwind in watchdog-supervised children; no panic/abort/hang, a recursion-limit diagnostic when the limit is exceeded, DiagnosticList sorted by location, Display/Debug/JSON rendering total.",
+    "Limit diagnostics demanded only for acyclic chains longer than the code's constant for that family.")
+
+row("C22", True, "E-CHOICE",
+    "exhaustive enumeration of hash-seed schedules (environment answers of the hash seam) with the real code run to completion on each, plus K fresh processes; oracle: byte-identical outputs",
+    "Every workload (schemas that prune/re-add built-in scalars, documents with many diagnostics, introspection, smith generation) is run under every schedule of a family of per-instance hash seeds installed through ahash's RandomSource seam, so that every hash collection of apollo-compiler iterates in many different orders; type-map order, SDL, introspection JSON, diagnostics (text and JSON) and smith output must be byte-identical to schedule 0. Fresh processes with natural seeds are compared by digest.",
+    "Seam self-test asserts the installed source is actually consulted and changes iteration order. apollo-smith's std HashMap is varied only by the cross-process part.")
+
+row("C23", True, "E-INPUT",
+    EI + "; oracle: hand matcher for the five coordinate forms + linear-scan lookup",
+    "Every string over coordinate alphabets up to a length bound against SchemaCoordinate / the five specific coordinate types' FromStr (accept iff one of the five forms with valid names; Display is the identity on accepted strings; parse∘Display identity on every constructed value); every coordinate over the name universe looked up in three schemas must find exactly the element a linear scan finds, or the right not-found error.",
+    "Lookup schemas are three fixed valid schemas, not an enumeration.")
+
+row("C24", True, "E-INPUT",
+    EI + " (schema variations x 4 query variants); oracle: reference introspection (transcribed graphql-js)",
+    "Every base schema and every listed variation (descriptions, deprecation, defaults of every type, interfaces, unions, enums, specifiedBy, repeatable directives, extensions) is introspected by the real introspection::partial_execute / execute under four query variants (full standard query, includeDeprecated on/off, __type lookups); the response must equal the reference response after normalising orders the statement leaves open.",
+    "Trusted: refmodel::introspect (graphql-js not installed). One open known finding (defaultValue printed verbatim) is modelled by a switch.")
+
+row("C25", True, "E-INPUT",
+    EI + " (all introspection selections with fragments up to a node bound); oracle: depth of the fragment-expanded document",
+    "Every introspection document built from nesting chains of the four list fields (fields, interfaces, possibleTypes, inputFields) and ofType, with up to 2 named fragments and inline fragments, spread at every position up to a node bound, is checked by the real introspection depth check; the verdict must equal the reference depth rule on the fully expanded document, and must be the same for a document and its inline expansion.",
+    "Only the verdict is compared.")
+
+row("C26", True, "E-INPUT",
+    EI + " (operations x variable maps x resolver worlds with bounded deviations); oracle: reference executor (spec §6)",
+    "Every generated valid operation × every coerced variable map × every resolver world with at most k non-default behaviours (resolver error, null, wrong shape, list item error/null, abstract type choice) is executed by the real execute_sync; data, error paths, null propagation, @skip/@include, fragment type conditions, field merging order, serial mutation and __typename must equal the reference executor's.",
+    "Trusted: refmodel::exec (51 calibration cases + spec examples). Messages/locations not compared. One open known finding is a switch.")
+
+row("C27", True, "E-CHOICE",
+    "stateless exhaustive enumeration of every poll-readiness / wake-timing schedule of the real async executor under a controlled single-task executor; oracle: sync response + call log",
+    "For every request within the bound, every assignment of {ready, pending + immediate wake, pending + deferred wake} to every poll of every resolver future and list-stream item (bounded pendings per future) drives the real execute_async to completion under a harness executor that polls only after a wake; the response must equal execute_sync's, every resolver is called at most once, a mutation root field starts only after the previous one completed, and a never-woken pending poll must be reported as a lost wake-up (no busy polling).",
+    "Executor model: one task, no spurious polls.")
+
+row("C28", True, "E-INPUT",
+    EI + " (full product type x wrapper x default x JSON value); oracle: reference CoerceVariableValues",
+    "The full product of named types (Int, Float, String, Boolean, ID, enum, input objects incl. nested/oneOf-free, custom scalar) × list/non-null wrappers × default values × a JSON value menu (and two-variable products) is coerced by the real coerce_variable_values; Ok/Err and the coerced map must equal the reference model.",
+    "Trusted: refmodel::coerce. Two open known findings (defaults not coerced) are switches.")
+
+row("C29", True, "E-INPUT",
+    EI + " (all ordered type-reference pairs up to a nesting bound x defaults x positions); oracle: spec predicates",
+    "Every ordered pair of type references up to a nesting bound: Type::is_assignable_to vs AreTypesCompatible; the variable-usage rule observed through validation of minimal documents vs IsVariableUsageAllowed (× variable default × location default); interface implementation field types observed through schema validation vs IsValidImplementationFieldType (× object/interface/union subtyping).",
+    "Crate-private predicates are observed through verdicts of minimal documents in which every other rule holds by construction.")
+
+row("C32", True, "E-INPUT",
+    EI + " (all byte strings up to a length bound as the Unstructured entropy); oracle: generated document parses and validates; generation twice gives identical text",
+    "Every byte string of length <= 2 over all 256 bytes and up to a larger bound over 6 representative bytes is fed as entropy to apollo-smith's DocumentBuilder in each mode (type-system, executable against base schemas); the generated text must parse and validate with the real compiler and a second generation from the same bytes must be identical.",
+    "Base schemas stay inside what DocumentBuilder implements (no union/custom-scalar output fields; no self-referential input objects).")
+
+row("C33", True, "E-CHOICE",
+    "stateless exhaustive enumeration of every RandomProvider answer sequence (complete tree, or all sequences with <= k deviations from the default answer) with the real ResponseBuilder run on each; oracle: shape checker + real execution",
+    "For each (schema, operation) workload and builder configuration, every answer sequence of the RandomProvider seam (bool / index / length answers) is enumerated — the whole choice tree where small, otherwise every sequence with at most k non-default answers — and ResponseBuilder::build runs on each; the response must have exactly the operation's shape for the concrete types chosen (key sets, list nesting per declared type, null only where nullable, enum values from the enum, __typename consistent) and be accepted when served back through execute_sync.",
+    "One open known finding (nested list types generated with one list level) is predicted by a classifier.")
+
+row("C30", False, "E-HIST", "", "", "check not built yet in this revision (design in DESIGN.md §6 C30: BFS over clone/drop/convert histories of Name and Node with a counting allocator); not claimed")
+row("C31", False, "E-CHOICE", "", "", "check not built yet in this revision (design in DESIGN.md §6 C31: loom exploration of the file-id counter behind hook H1); not claimed")
